@@ -153,6 +153,18 @@ def large_archive_stream(rep, rng, n):
 
 def check(rep, tier, seed, driver):
     rng = random.Random(seed)
+    # the number of clears is part of "every history": a cell filled once and then cleared several hundred times stays empty
+    from ribs.archives import GridArchive as _GA
+    _a = _GA(solution_dim=1, dims=[4], ranges=[(0.0, 1.0)])
+    _a.add_single([0.0], 1000.0, [0.1])
+    for _k in range(1, 601):
+        _a.clear()
+        _o, _d = _a.retrieve_single([0.1])
+        if bool(_o) or len(_a) != 0 or _a.stats.num_elites != 0:
+            rep.violation("GridArchive: one elite, then %d clear() calls: retrieve_single of its measures reports occupied=%s (objective %s), len %d" % (
+                _k, bool(_o), float(_d["objective"]), len(_a)), {"kind": "property", "broken": "a cell is occupied exactly when a candidate was routed there since the last clear",
+                                                                   "clears": _k}, True, {"kind": "clear-recurs"})
+            break
     n = 350 if tier == "quick" else 1500
     rep.rule = ("random elitist archives (GridArchive 1-4 dims, CVTArchive kd-tree/brute/chunked with custom incl. duplicated centroids, "
                 "SlidingBoundariesArchive without remap; float32/float64; 5 extra-field layouts; ndarray/list/float64 containers) x random "
